@@ -75,7 +75,22 @@ def check(d, schema, x, fc=False):
     if (r1b is None) != valid or (r1b is not None and esig(r1b) != sigs[0]):
         return False, tag
     pool = [esig(e) for e in closure(errs)]
-    variants = [dict(cls=cls, **kw)]
+    try:
+        cls.check_schema(schema)
+        schema_ok = True
+    except SchemaError:
+        schema_ok = False
+    except Exception as e:
+        raise HarnessEscape(type(e).__name__)
+    if not schema_ok:
+        # the template is not a valid schema of this draft: the module-level entry point must say so, whatever the instance
+        try:
+            jsonschema.validate(x, schema, cls=cls, **kw)
+            return False, tag
+        except SchemaError:
+            return True, tag
+        except Exception as e:
+            raise HarnessEscape(type(e).__name__)
     schema2 = None
     if isinstance(schema, dict):
         schema2 = dict(schema)
